@@ -29,7 +29,6 @@ package c05
 import (
 	"encoding/json"
 	"fmt"
-	"math/rand"
 	"os"
 	"regexp"
 	"runtime"
@@ -54,7 +53,7 @@ var walkers = []string{"resolve", "length", "xref", "pages", "outline", "nametre
 // exhaustive run with the invariants NoOverflow and WorkBounded).
 func holdConfigs(ctx *core.Ctx) (pipe []string, walk []string) {
 	pipe = []string{"MC_Pipe_close.cfg", "MC_Pipe_close_srcerr.cfg", "MC_Pipe_fwd.cfg"}
-	walk = []string{"MC_Walk_q.cfg", "MC_Walk_small3.cfg", "MC_Walk_depth_outline.cfg", "MC_Walk_depth_nametree.cfg"}
+	walk = []string{"MC_Walk_q.cfg", "MC_Walk_small3.cfg", "MC_Walk_depth_outline.cfg", "MC_Walk_depth_nametree.cfg", "MC_Walk_filters_globals_capped.cfg"}
 	return
 }
 
@@ -469,7 +468,7 @@ func addExploration(ctx *core.Ctx, pl *plan) error {
 	// seeds
 	rng := ctx.Rand("seeds")
 	var seeds []Seed
-	dg, err := docgenSeeds(rng, ctx.Pick(2, 6))
+	dg, err := docgenSeeds(rng, ctx.Pick(3, 6))
 	if err != nil {
 		return core.Infra("%v", err)
 	}
@@ -501,7 +500,7 @@ func addExploration(ctx *core.Ctx, pl *plan) error {
 
 	// mutations
 	mrng := ctx.Rand("mutate")
-	per := ctx.Pick(14, 90)
+	per := ctx.Pick(36, 90)
 	for _, s := range seeds {
 		n := per
 		if s.Class == "corpus" {
@@ -588,5 +587,3 @@ func replay(ctx *core.Ctx, raw json.RawMessage) error {
 	fmt.Printf("  %d calls executed, %d rejected\n", len(res.Recs), len(bad))
 	return nil
 }
-
-var _ = rand.Int
